@@ -65,5 +65,7 @@ Definition violates (k : case) : bool :=
   | CDiff t => negb (Pb (ODiff t))
   | CSudo _ steps => existsb (fun s => negb (Pb (OStored (ss_after s)))) steps
   | CAbi abi _ => negb (Pb (OSelectors (map snd abi)))
+  | COmap ops => existsb (fun o => negb (Pb (OStored (snd o)))) ops   (* Keys() is the sorted enumeration *)
+  | CSortedKeys _ out => negb (Pb (OStored out))
   | _ => false
   end.
